@@ -149,6 +149,9 @@ type c11Run struct {
 	elapsed  time.Duration
 	viaToken bool
 	viaQuery bool
+	// a second Query after an error, with nothing added in between, reported success
+	secondNil   bool
+	secondFacts []m.Pred
 }
 
 func limitName(err error) string {
@@ -227,19 +230,9 @@ func runC11(c C11Case) (c11Run, error) {
 		a.Reset()
 	}
 	bridge.AddAuthz(a, az)
-	if c.Place != "authority" && c.Place != "block" && c.RootSeed%2 == 1 {
-		// Query is an entry point too: it runs the authorizer's own facts and rules under the same limits
-		r.viaQuery = true
-		t0 := time.Now()
-		_, r.err = a.Query(bridge.ToRule(m.Rule{Head: m.P("probe_out", m.Var("x")), Body: []m.Pred{m.P("probe_none", m.Var("x"))}}))
-		r.elapsed = time.Since(t0)
-		if r.err != nil {
-			return r, nil
-		}
-		if c.Class == "heavy" {
-			return r, nil
-		}
-		// the evaluation succeeded: read the whole model back, predicate by predicate
+	probe := bridge.ToRule(m.Rule{Head: m.P("probe_out", m.Var("x")), Body: []m.Pred{m.P("probe_none", m.Var("x"))}})
+	// readBack reads the whole model, predicate by predicate (names and arities from the reference)
+	readBack := func() (facts []m.Pred, qerr error, herr error) {
 		seen := map[string]bool{}
 		for _, f := range ref.LFP(c.Facts, c.Rules).Facts.List() {
 			k := fmt.Sprintf("%s/%d", f.Name, len(f.Terms))
@@ -253,22 +246,64 @@ func runC11(c C11Case) (c11Run, error) {
 			}
 			fs, err := a.Query(bridge.ToRule(m.Rule{Head: m.P(f.Name, vars...), Body: []m.Pred{m.P(f.Name, vars...)}}))
 			if err != nil {
-				r.err = err
-				return r, nil
+				return nil, err, nil
 			}
 			lifted, err := bridge.LiftFactSet(fs)
 			if err != nil {
-				return r, err
+				return nil, nil, err
 			}
-			r.facts = append(r.facts, lifted...)
+			facts = append(facts, lifted...)
 		}
+		return facts, nil, nil
+	}
+	inAuthorizer := c.Place != "authority" && c.Place != "block"
+	// asking again after an error, with nothing added: either the error again, or (the evaluation went
+	// on and finished this time) the complete model -- never success over a truncated model
+	askAgain := func() error {
+		if !inAuthorizer || c.Class == "heavy" || r.err == nil {
+			return nil
+		}
+		if _, err2 := a.Query(probe); err2 != nil {
+			return nil
+		}
+		facts, qerr, herr := readBack()
+		if herr != nil {
+			return herr
+		}
+		if qerr == nil {
+			r.secondNil, r.secondFacts = true, facts
+		}
+		return nil
+	}
+	if inAuthorizer && c.RootSeed%2 == 1 {
+		// Query is an entry point too: it runs the authorizer's own facts and rules under the same limits
+		r.viaQuery = true
+		t0 := time.Now()
+		_, r.err = a.Query(probe)
+		r.elapsed = time.Since(t0)
+		if r.err != nil {
+			return r, askAgain()
+		}
+		if c.Class == "heavy" {
+			return r, nil
+		}
+		// the evaluation succeeded: read the whole model back
+		facts, qerr, herr := readBack()
+		if herr != nil {
+			return r, herr
+		}
+		if qerr != nil {
+			r.err = qerr
+			return r, nil
+		}
+		r.facts = facts
 		r.viaToken = false // the facts are known: compare them with the fixpoint
 		return r, nil
 	}
 	t0 := time.Now()
 	r.err = a.Authorize()
 	r.elapsed = time.Since(t0)
-	return r, nil
+	return r, askAgain()
 }
 
 func checkC11(c C11Case, rec *obs.Recorder) *obs.Violation {
@@ -332,6 +367,17 @@ func checkC11(c C11Case, rec *obs.Recorder) *obs.Violation {
 	if onlyStranding {
 		rec.Label("order-dependent-ill-formed(stranding only)")
 		return nil
+	}
+
+	// (a') success on asking again means the fixpoint was reached in the meantime
+	if got.secondNil {
+		rec.Label("asked-again:success")
+		if want.RuleError || want.Diverged {
+			return obs.ViolK("second-query", "%s: the evaluation failed with %v; a second Query on the same authorizer, with nothing added, reports success although the program has no fixpoint within any limit (rule error %v)", c.text(), got.err, want.RuleError)
+		}
+		if d := diffSets(want.Facts.List(), got.secondFacts); d != "" {
+			return obs.ViolK("second-query", "%s: the evaluation failed with %v; a second Query on the same authorizer, with nothing added, reports success over a model that is not the fixpoint: %s", c.text(), got.err, d)
+		}
 	}
 
 	// (a) success means the fixpoint was reached
@@ -581,7 +627,7 @@ func drawC11(t *rapid.T) C11Case {
 func TestC11(t *testing.T) {
 	rec := obs.New("C11")
 	defer rec.Flush(true)
-	rec.SetExtra("rule", "rapid program classes with reference size and round numbers: small typed programs; blow-up (cross products, transitive closure over a chain up to 14); heavy joins (a 5-predicate body over a calibrated number of facts with no match, about 1.5 s in full) under 1 ms / 20 ms; ill-formed rules (unbound head variable with 1-4 matching bindings; expression error; a rule that mixes both, with expressions that pass on some bindings and raise division-by-zero / overflow errors on others, facts in drawn order); derivation ladders l0->l1->...->lk (k 3-7) with their rules in a drawn order; limit configurations drawn around the reference numbers (generous / fact limit below the fixpoint / iteration limit below the need / arbitrary); delivered through datalog.NewWorld, NewVerifier, Authorizer(root, opts...), AuthorizerFor(src, opts...), with the program in the authority block, the authorizer or a later block, evaluated by Authorize or (program in the authorizer, half of the cases) by Query, after which the whole model is read back with one query per predicate and compared with the reference fixpoint; in a third of the token-level cases the authorizer is used and Reset before the content is added (limits must survive Reset). Oracle: Run==nil implies facts == reference fixpoint and no limit exceeded; fixpoint larger than maxFacts / needing >= maxIterations+2 rounds implies the matching sentinel (errors.Is); heavy program under a tiny duration implies the timeout sentinel; a program clearly within all limits gets no limit error; Authorize fails with the sentinel through every entry point; after return, no goroutine with a datalog frame stays parked in a channel send while no datalog goroutine can run (3 equal samples). Non-trivial = a limit is exceeded, or an early-exit path is taken, or options travel through a token-level entry point; distinct by case.")
+	rec.SetExtra("rule", "rapid program classes with reference size and round numbers: small typed programs; blow-up (cross products, transitive closure over a chain up to 14); heavy joins (a 5-predicate body over a calibrated number of facts with no match, about 1.5 s in full) under 1 ms / 20 ms; ill-formed rules (unbound head variable with 1-4 matching bindings; expression error; a rule that mixes both, with expressions that pass on some bindings and raise division-by-zero / overflow errors on others, facts in drawn order); derivation ladders l0->l1->...->lk (k 3-7) with their rules in a drawn order; limit configurations drawn around the reference numbers (generous / fact limit below the fixpoint / iteration limit below the need / arbitrary); delivered through datalog.NewWorld, NewVerifier, Authorizer(root, opts...), AuthorizerFor(src, opts...), with the program in the authority block, the authorizer or a later block, evaluated by Authorize or (program in the authorizer, half of the cases) by Query, after which the whole model is read back with one query per predicate and compared with the reference fixpoint; in a third of the token-level cases the authorizer is used and Reset before the content is added (limits must survive Reset). Oracle: Run==nil implies facts == reference fixpoint and no limit exceeded; after an error, a second Query on the same authorizer with nothing added returns the error again or succeeds over exactly the reference fixpoint; fixpoint larger than maxFacts / needing >= maxIterations+2 rounds implies the matching sentinel (errors.Is); heavy program under a tiny duration implies the timeout sentinel; a program clearly within all limits gets no limit error; Authorize fails with the sentinel through every entry point; after return, no goroutine with a datalog frame stays parked in a channel send while no datalog goroutine can run (3 equal samples). Non-trivial = a limit is exceeded, or an early-exit path is taken, or options travel through a token-level entry point; distinct by case.")
 	rec.SetExtra("assumptions", []string{"the exact boundary (==) of the limits is not asserted", "liveness ('never blocked forever') is decided through the safety proxy of a quiescent parked sender", "a single late return is inconclusive; three in a row are a violation"})
 	harness.RunWith(t, harness.Spec[C11Case]{ID: "C11", Draw: drawC11, Check: checkC11}, rec)
 }
